@@ -382,6 +382,18 @@ fn enc_oracles(prefix: &[u8], e: &EncOut, fresh: &EncOut, is_control: bool, avp_
     join(v)
 }
 
+/// the encodable domain of C03 / C11: variable-length values non-empty, optional text not Some("")
+fn c11_domain(t: &TAvp) -> bool {
+    let empty = |x: &String| x.is_empty() || x == ".";
+    match t.kind.as_str() {
+        "HostName" | "Challenge" | "PrivateGroupId" | "InitialReceivedLcpConfReq" | "LastSentLcpConfReq" | "LastReceivedLcpConfReq"
+        | "ProxyAuthenName" | "ProxyAuthenChallenge" | "ProxyAuthenResponse" | "VendorName" | "CalledNumber" | "CallingNumber"
+        | "SubAddress" => t.args.first().map(|x| !empty(x)).unwrap_or(false),
+        "ResultCode" | "Q931CauseCode" => t.args.get(2).map(|x| x == "-" || !empty(x)).unwrap_or(true),
+        _ => true,
+    }
+}
+
 // ---------------------------------------------------------------- reference cursor / vector (C18 oracle on the impl side)
 
 fn rd_run(data: &[u8], ops: &str) -> (String, String) {
@@ -1089,9 +1101,26 @@ fn run(f: &[&str]) -> Option<String> {
                         None => "panic".to_string(),
                         Some(x) => render_avp_res(x),
                     };
+                    // the domain of C11 (as of C03): variable-length values non-empty, optional text not Some("").
+                    // Outside it the crate still hides; reveal then answers what the decoder makes of the AVP's own
+                    // value octets (theorem C11.reveal_hide_any) — checked for every non-hidden AVP, in or out
+                    let in_domain = c11_domain(&t);
                     if !is_hidden_in {
-                        if r.as_ref().and_then(|x| x.as_ref().ok()) != Some(&a) {
+                        if in_domain && r.as_ref().and_then(|x| x.as_ref().ok()) != Some(&a) {
                             v.push(format!("FAIL:c11-direct:reveal-gives-{}", rs));
+                        }
+                        let own = guard(|| {
+                            let e = enc_avp_into(&[], &a);
+                            e.data.map(|d| {
+                                let mut rd = SliceReader::from(&d[..]);
+                                let mut l = AVP::try_read_greedy(&mut rd);
+                                if l.len() == 1 { Some(render_avp_res(&l.remove(0))) } else { None }
+                            })
+                        });
+                        if let Some(Some(Some(own))) = own {
+                            if own != rs {
+                                v.push(format!("FAIL:c11-own:reveal-gives-{}-own-decode-gives-{}", rs, own));
+                            }
                         }
                         // reveal of a non-hidden AVP is the identity
                         let idr = guard(|| a.clone().reveal(&secret, &rv));
@@ -1120,7 +1149,7 @@ fn run(f: &[&str]) -> Option<String> {
                                             None => "panic".to_string(),
                                             Some(x) => render_avp_res(x),
                                         };
-                                        if !is_hidden_in && r2.as_ref().and_then(|x| x.as_ref().ok()) != Some(&a) {
+                                        if !is_hidden_in && in_domain && r2.as_ref().and_then(|x| x.as_ref().ok()) != Some(&a) {
                                             v.push(format!("FAIL:c11-wire:reveal-after-wire-gives-{}", s));
                                         }
                                         s
